@@ -29,20 +29,26 @@ inductive DVal where
 
 abbrev ModDict := List (DKey × DVal)
 
-def optEntry (k : DKey) : Option (List Mod) → ModDict
+/-- the entry of one named key: present only when the field is not None -/
+def optSeg {β : Type} (k : DKey) (f : β → DVal) : Option β → ModDict
   | none => []
-  | some l => [(k, .mods l)]
+  | some x => [(k, f x)]
 
-/-- `mod_dict`: named entries that are not None in a fixed order, then the internal mods under their indices -/
+/-- the integer-keyed entries of the internal mods -/
+def idxEntries (d : List (Int × List Mod)) : ModDict := d.map fun p => (.idx p.1, .mods p.2)
+
+/-- `if self.internal_mods: for index, mods in self.internal_mods.items(): result[index] = mods` -/
+def idxSeg : Option (List (Int × List Mod)) → ModDict
+  | none => []
+  | some d => idxEntries d
+
+/-- `mod_dict`: named entries that are not None in a fixed order, then the internal mods under their indices
+(`if self.internal_mods:` - an empty dict contributes nothing) -/
 def modDict (a : Annotation) : ModDict :=
-  optEntry .isotope a.isotope ++ optEntry .static a.static ++ optEntry .labile a.labile ++
-  optEntry .unknown a.unknown ++ optEntry .nterm a.nterm ++ optEntry .cterm a.cterm ++
-  (match a.intervals with | none => [] | some l => [(.intervals, .ivs l)]) ++
-  (match a.charge with | none => [] | some c => [(.charge, .charge c)]) ++
-  optEntry .adducts a.adducts ++
-  (match a.internal with
-   | none => []
-   | some d => d.map fun p => (.idx p.1, .mods p.2))
+  optSeg .isotope .mods a.isotope ++ optSeg .static .mods a.static ++ optSeg .labile .mods a.labile ++
+  optSeg .unknown .mods a.unknown ++ optSeg .nterm .mods a.nterm ++ optSeg .cterm .mods a.cterm ++
+  optSeg .intervals .ivs a.intervals ++ optSeg .charge .charge a.charge ++ optSeg .adducts .mods a.adducts ++
+  idxSeg a.internal
 
 /-- `add_<kind>_mods(mods, append)` on one list-valued field -/
 def addList (cur : Option (List Mod)) (v : DVal) (append : Bool) : Option (List Mod) :=
@@ -119,12 +125,10 @@ def strip (a : Annotation) : Annotation := { seq := a.seq }
 
 /-- `ProFormaAnnotation.pop_mods`: the dictionary (internal mods under the key `internal`) and the stripped object -/
 def popMods (a : Annotation) : ModDict × Annotation :=
-  (optEntry .isotope a.isotope ++ optEntry .static a.static ++ optEntry .labile a.labile ++
-   optEntry .unknown a.unknown ++ optEntry .nterm a.nterm ++ optEntry .cterm a.cterm ++
-   optEntry .adducts a.adducts ++
-   (match a.charge with | none => [] | some c => [(.charge, .charge c)]) ++
-   (match a.internal with | none => [] | some d => [(.internal, .dict d)]) ++
-   (match a.intervals with | none => [] | some l => [(.intervals, .ivs l)]),
+  (optSeg .isotope .mods a.isotope ++ optSeg .static .mods a.static ++ optSeg .labile .mods a.labile ++
+   optSeg .unknown .mods a.unknown ++ optSeg .nterm .mods a.nterm ++ optSeg .cterm .mods a.cterm ++
+   optSeg .adducts .mods a.adducts ++ optSeg .charge .charge a.charge ++ optSeg .internal .dict a.internal ++
+   optSeg .intervals .ivs a.intervals,
    { seq := a.seq })
 
 /-- `copy()` = deepcopy -/
